@@ -19,18 +19,42 @@ pub struct ChunkWriter {
     /// instead of an `Err`
     pub zero_at_fail: bool,
 }
+thread_local! {
+    /// what each call of `write` did, in the event vocabulary of the model's chunked writer
+    /// (t<k>: at most k+1 bytes accepted; i: interrupted; z: Ok(0); f: failed)
+    pub static WRITE_LOG: std::cell::RefCell<Vec<String>> = std::cell::RefCell::new(Vec::new());
+    pub static WRITE_INTERRUPT_EVERY: std::cell::Cell<usize> = std::cell::Cell::new(0);
+}
+fn take_wlog() -> String {
+    WRITE_LOG.with(|l| {
+        let v = std::mem::take(&mut *l.borrow_mut());
+        if v.is_empty() { "-".to_string() } else { v.join(",") }
+    })
+}
 impl Write for ChunkWriter {
     fn write(&mut self, buf: &[u8]) -> std::io::Result<usize> {
-        let mut n = buf.len().min(self.schedule[self.turn % self.schedule.len()].max(1));
+        let every = WRITE_INTERRUPT_EVERY.with(|c| c.get());
+        if every > 0 && self.turn % every == every - 1 && !buf.is_empty() {
+            self.turn += 1;
+            WRITE_LOG.with(|l| l.borrow_mut().push("i".into()));
+            return Err(std::io::Error::new(std::io::ErrorKind::Interrupted, "interrupted"));
+        }
+        let mut cap = self.schedule[self.turn % self.schedule.len()].max(1);
         self.turn += 1;
         if let Some(k) = self.fail_at {
             if self.accepted.len() >= k {
                 if self.zero_at_fail {
+                    WRITE_LOG.with(|l| l.borrow_mut().push("z".into()));
                     return Ok(0);
                 }
+                WRITE_LOG.with(|l| l.borrow_mut().push("f".into()));
                 return Err(std::io::Error::new(std::io::ErrorKind::Other, "injected"));
             }
-            n = n.min(k - self.accepted.len());
+            cap = cap.min(k - self.accepted.len());
+        }
+        let n = buf.len().min(cap);
+        if !buf.is_empty() {
+            WRITE_LOG.with(|l| l.borrow_mut().push(format!("t{}", cap.min(buf.len()) - 1)));
         }
         self.accepted.extend_from_slice(&buf[..n]);
         Ok(n)
@@ -116,7 +140,19 @@ fn check_writer(o: &mut Out, r: &mut Rng, v: &Val) {
     for sched in schedules(r) {
         let w = ChunkWriter { accepted: Vec::new(), schedule: sched.clone(), turn: 0, fail_at: None, flush_fails: false, zero_at_fail: false };
         o.eval(&("w", &vs, &sched), !plain.is_empty());
-        match guarded(|| postcard::to_io(v, w)) {
+        // every third write call is interrupted first on the short-piece schedule
+        WRITE_INTERRUPT_EVERY.with(|c| c.set(if sched.len() > 1 { 3 } else { 0 }));
+        take_wlog();
+        let got = guarded(|| postcard::to_io(v, w));
+        WRITE_INTERRUPT_EVERY.with(|c| c.set(0));
+        let events = take_wlog();
+        if events.len() < 4000 {
+            if let Ok(Ok(w)) = &got {
+                // the model's chunked writer, driven by the events this writer produced
+                o.case("toioc", &[&vs, &events, "0"], &format!("ok {}", hex(&w.accepted)));
+            }
+        }
+        match got {
             Ok(Ok(w)) if w.accepted == plain => {}
             other => o.fail("writing through a writer produces exactly the plain encoding", format!("{} schedule {:?}", vs, sched), format!("{:?}", other.map(|r| r.map(|w| hex(&w.accepted)))), hex(&plain)),
         }
@@ -141,7 +177,14 @@ fn check_writer(o: &mut Out, r: &mut Rng, v: &Val) {
             }
         }
         let w = Tee(ChunkWriter { accepted: Vec::new(), schedule: sched.clone(), turn: 0, fail_at: Some(k), flush_fails: false, zero_at_fail: zero }, shared.clone());
+        take_wlog();
         let got = guarded(|| postcard::to_io(v, w).map(|_| ()));
+        let events = take_wlog();
+        if k % 3 == 1 && events.len() < 4000 {
+            if let Ok(Err(e)) = &got {
+                o.case("toioc", &[&vs, &events, "0"], &format!("err:{:?}", e));
+            }
+        }
         o.eval(&("wf", &vs, k, zero), true);
         match got {
             Ok(Err(postcard::Error::SerializeBufferFull)) => {}
